@@ -184,13 +184,29 @@ func c10CheckKey(t interface{ Fatalf(string, ...any) }, k []byte) {
 // TestVerifC10Random covers long paths and keys with random content.
 func TestVerifC10Random(t *testing.T) {
 	st := vs.New("C10", t)
-	nibGen := rapid.SliceOfN(rapid.ByteRange(0, 15), 0, 130)
+	// lengths: mostly short, plus hostile lengths around the sizes a fixed scratch buffer would have
+	// (64/65, 128..131, 255..258, 511..513 nibbles) and long paths up to 700
+	nibGen := rapid.Custom(func(rt *rapid.T) []byte {
+		var n int
+		switch rapid.IntRange(0, 3).Draw(rt, "lenClass") {
+		case 0:
+			n = rapid.IntRange(0, 40).Draw(rt, "len")
+		case 1:
+			n = rapid.SampledFrom([]int{63, 64, 65, 127, 128, 129, 130, 131, 132, 254, 255, 256, 257, 258, 259, 511, 512, 513}).Draw(rt, "len")
+		case 2:
+			n = rapid.IntRange(41, 300).Draw(rt, "len")
+		default:
+			n = rapid.IntRange(301, 700).Draw(rt, "len")
+		}
+		return rapid.SliceOfN(rapid.ByteRange(0, 15), n, n).Draw(rt, "nib")
+	})
 	vs.Check(t, 1, func(rt *rapid.T) {
 		c := st.Case()
 		nib := nibGen.Draw(rt, "nibbles")
 		term := rapid.Bool().Draw(rt, "term")
 		comp := c10CheckPath(rt, nib, term)
-		k := rapid.SliceOfN(rapid.Byte(), 0, 64).Draw(rt, "key")
+		kl := rapid.SampledFrom([]int{0, 1, 20, 31, 32, 33, 63, 64, 65, 66, 127, 128, 129, 130, 200, 256, 257, 350}).Draw(rt, "keyLen")
+		k := rapid.SliceOfN(rapid.Byte(), kl, kl).Draw(rt, "key")
 		c10CheckKey(rt, k)
 		// prefixLen against a model
 		other := nibGen.Draw(rt, "other")
